@@ -17,7 +17,8 @@ enum HK { H_SUB_INV = 1, H_SUB_RET, H_EXEC, H_CANCEL, H_RUN_BEGIN, H_RUN_END, H_
 enum Entry { E_RUNINLOOP = 0, E_RUNNEXT = 1, E_RUN = 2 };
 enum Cell { C_IN_JOIN_LOOP = 1, C_PENDING_EXPECTED = 2, C_LOOP_TID = 3, C_RUNID_BASE = 16 };   // cells 16.. hold RunIds (low 32 bits are enough here)
 
-// op: sub <actor> <phase> <child_entry> <grandchild_entry> <cancel_target> <yields_after> <sleep_after_ms>
+// op: sub <actor> <phase> <child_entry> <grandchild_entry> <cancel_target> <yields_after> <sleep_after_ms> <busy_ms>
+//   busy_ms : the task keeps the thread that runs it busy for that long (a slow callback: the pass outlasts the loop's cost water line of 100 ms)
 //   actor  : submitter thread index
 //   phase  : (on the first op of an actor) when the submitter thread is started: 0 before the loop starts,
 //            1 while it runs, 2 together with the exit request, 3 after the loop has stopped
@@ -48,7 +49,7 @@ void generate(sim::Rng &r, uint64_t seed, const std::string &tier, sim::Plan &p)
     long child = r.chance(350) ? r.range(0, 2) : -1;
     long grand = (child >= 0 && r.chance(300)) ? r.range(0, 2) : -1;
     long cancel = r.chance(300) ? (long)r.below((uint64_t)total * 3) : -1;
-    op.a = {actor, phase[(size_t)actor], child, grand, cancel, r.range(0, 2), r.chance(200) ? r.range(1, 3) : 0};
+    op.a = {actor, phase[(size_t)actor], child, grand, cancel, r.range(0, 2), r.chance(200) ? r.range(1, 3) : 0, r.chance(60) ? r.range(101, 160) : r.chance(60) ? r.range(1, 40) : 0};
     p.ops.push_back(op);
   }
   sim::draw_sched(seed, p);
@@ -71,6 +72,7 @@ void task_body(int id) {
   int gen = id / (int)N;
   if (gen >= 3) return;                   // driver pre-task: no behaviour
   const sim::Op &op = W.plan->ops[(size_t)top];
+  if (gen == 0 && op.arg(7) > 0) { sim::probe("slow_tasks"); sim::sleep_ns(std::min(300L, op.arg(7)) * 1000000); }
   if (gen == 0) {
     long ct = op.arg(4, -1);
     if (ct >= 0) {
